@@ -165,8 +165,8 @@ pub const CHAINS: &[Chain] = &[
     } },
 ];
 
-/// Runs `f(n)` for growing n and reports exponential growth of thread CPU time: a step of +2 in n that
-/// multiplies the time by >= 3 twice in a row, on measurements above 0.15 s. Linear or quadratic
+/// Runs `f(n)` for growing n and reports exponential growth of thread CPU time: three consecutive steps of +2
+/// in n that each multiply the time by >= 3, ending above 0.3 s. Linear or quadratic
 /// behaviour gives ratios below 1.3 at these sizes. Returns the measurements.
 pub fn growth_probe(mut f: impl FnMut(usize)) -> (Vec<(usize, f64)>, bool) {
     let mut times: Vec<(usize, f64)> = vec![];
@@ -177,7 +177,8 @@ pub fn growth_probe(mut f: impl FnMut(usize)) -> (Vec<(usize, f64)>, bool) {
         let dt = thread_cpu_s() - t0;
         times.push((n, dt));
         let k = times.len();
-        let exponential = k >= 3 && times[k - 1].1 > 0.15 && times[k - 1].1 >= 3.0 * times[k - 2].1 && times[k - 2].1 >= 3.0 * times[k - 3].1;
+        // three consecutive steps that each at least triple the time, ending above 0.3 s
+        let exponential = k >= 4 && times[k - 1].1 > 0.3 && (1..=3).all(|j| times[k - j].1 >= 3.0 * times[k - j - 1].1);
         if exponential {
             return (times, true);
         }
